@@ -4,7 +4,7 @@ CHECKS = [
  dict(property_id='C03', design_ref='DESIGN.md 7 C03, Appendix A',
       technique='Lean 4 refinement proof (interpreter model = language-definition spec, induction over trees) + model/code correspondence check',
       text='Proved in Lean for all trees, environments and number implementations: the interpreter model returns exactly the value or winning error of the '
-           'language definition (execute_eq_spec), Boolean results, no coercion in arithmetic, undefined-variable rules. The model is tied to the crate on every run by '
+           'language definition (execute_eq_spec), Boolean results, no coercion in arithmetic, undefined-variable rules; for the actual number type (core Float): + - * / are the IEEE operations, div = trunc(a/b) with the IEEE sign rule, mod is the exact C fmod with the dividend\'s sign and |r| < |y|, = and the ordering are IEEE ==/partial order with the documented NaN and Boolean coercion rules (C03Float). The model is tied to the crate on every run by '
            'the enumerated operator x kind x kind x {defined,undefined,failing} table and random nested trees; the Spec is also run directly against the crate as the falsifier.',
       note=TB + "core Float operations implement core's Float.Model; bit-level trunc/fmod/parse definitions tied by the num stream."),
  dict(property_id='C04', design_ref='DESIGN.md 7 C04',
@@ -29,7 +29,7 @@ CHECKS = [
       technique='Lean 4 proof over a structural scanner model (separator grammar invisibility, n-ary layout theorem, string/keyword/number lemmas) + scanner correspondence incl. exhaustive fragment sequences',
       text='Proved in Lean: separators (whitespace, // comments, nested { } comments) in front of any input are invisible (scan_sep_invariant), the n-ary layout theorem scan_layout with the exact fusion condition, '
            'string literals denote exactly their content for every character sequence (scan_string_literal), all ASCII case variants of the 8 keywords (keyword_case), identifiers keep their spelling, '
-           'the four decimal spellings denote str::parse of their text (scan_number). Tie: all fragment sequences <=3/<=4 + random texts; decimal->nearest double by the num stream. Falsifier: metamorphic layout variants on the crate.',
+           'the four decimal spellings denote the double NEAREST (ties to even) to their decimal value, +inf beyond the overflow threshold (scan_number_nearest, proved from core Float.ofScientific). Tie: all fragment sequences <=3/<=4 + random texts; decimal->nearest double by the num stream. Falsifier: metamorphic layout variants on the crate.',
       note=TB + 'Unicode character classes are Rust std tables dumped into SlacModel/UnicodeTables.lean (theorems hold for every CharClass with the stated ASCII behaviour); '
            'nearest-double conversion is the exact rational model of Num.lean tied by the num stream.'),
  dict(property_id='C05', design_ref='DESIGN.md 7 C05',
@@ -97,14 +97,14 @@ CHECKS = [
       text='Proved in Lean: the search family (contains/find/count/replace/split) equals an independent specification written with List.IsInfix/IsPrefix and leftmost non-overlapping occurrences (incl. the empty needle), split is the unique decomposition, '
            'at enumerates the string over first..first+length-1 and fails outside, copy(s, find(s,x), length(x)) = x for every substring, failed find = first-1 (arrays -1), insert/copy/length coherence, reverse involutive, unique = first-occurrence dedup, csv/trim/case functions — for both offsets and all strings (characters, not bytes). '
            'Tie: 21 builtins in both index-base builds against the model; falsifier: the laws evaluated on the builtins.',
-      note=TB + 'LawfulIdx (small integers exact in binary64) is a hypothesis of the position theorems, tied by the num stream; Unicode tables from Rust std.'),
+      note=TB + 'LawfulIdx Float is proved, so the position theorems hold for binary64 unconditionally (C15Float); Unicode case tables from Rust std.'),
 
  dict(property_id='C16', design_ref='DESIGN.md 7 C16',
       technique='Lean 4 proofs: calendar bijection by omega for all years, rounding bound over Q (Mathlib) for decode(encode), builtin specifications + exhaustive date / millisecond enumeration against the crate',
       text='Proved in Lean: days-from-civil and civil-from-days are mutually inverse for ALL dates (every integer year), day numbering starts at 1970-01-01 and steps by one per calendar day, weekday/leap/month-length rules, addMonths = whole months with clamping; '
            'for every number type satisfying LawfulTimeNum: decode(encode t) = t for all valid dates of years 1-9999 x all milliseconds, every component extractor, encode_date/encode_time specifications and rejections, default-format string round trips, inc_month, date+time = x. '
            'The rounding fact behind decode(encode) is proved over Q from the standard model of floating point. Tie: quick = sampled ranges; thorough = all 3.65 M dates and all 86.4 M ms evaluated on the crate and on the model (digest comparison).',
-      note=TB + 'LawfulTimeNum Float (binary64 follows the standard model on these operands) is the trusted assumption, sampled by the num and tmrange streams; chrono beyond the modelled calendar/format subset is skipped and counted.'),
+      note=TB + 'LawfulTimeNum Float is proved from core Float.Model (standard model for * and / on normal results, then the round-trip identity), so the theorems hold for binary64 unconditionally (C16Float); chrono beyond the modelled calendar/format subset is skipped and counted.'),
 
  dict(property_id='C17', design_ref='DESIGN.md 7 C17, 15.2',
       technique='Lean 4 proofs on core Float.Model through a proved bits bridge: parse(display x) = x for every double, trunc/frac/round/even/hex characterisations, chr/ord inverse + builtin correspondence and std/libm comparison on the crate',
